@@ -69,7 +69,8 @@ type pcfg struct {
 }
 
 type ptraceObs struct {
-	Order   [][]string   `json:"order"`
+	Order   [][]string   `json:"order"`           // id list each attempt received (copied at call time), in delivery order
+	After   [][]string   `json:"after,omitempty"` // the same slices re-read when the attempt was let go
 	Spawned [][][]string `json:"spawned"`
 	Final   int          `json:"final"` // index into Finals
 	Stuck   bool         `json:"stuck,omitempty"`
@@ -149,17 +150,19 @@ func (c *pcfg) outcomeOf(a *attempt) guidedremediation.VerifC16Outcome {
 }
 
 type pgate struct {
-	ids []string
-	ch  chan struct{}
+	ids   []string // copy taken when PatchFunc was called
+	after []string // the caller's slice re-read after the gate opened
+	ch    chan struct{}
 }
 
 type prun struct {
-	mu      sync.Mutex
-	blocked []*pgate
-	events  int
-	done    chan struct{}
-	res     []result.Patch
-	err     error
+	mu       sync.Mutex
+	released []*pgate
+	blocked  []*pgate
+	events   int
+	done     chan struct{}
+	res      []result.Patch
+	err      error
 }
 
 func (r *prun) settle(quiet time.Duration) {
@@ -194,7 +197,12 @@ func startCompute(c *pcfg) *prun {
 		r.events++
 		r.mu.Unlock()
 		<-g.ch
-		return c.outcomeOf(c.lookup(mine))
+		// a strategy keeps reading its vulnIDs argument while it works: re-read the caller's slice now
+		after := append([]string(nil), ids...)
+		r.mu.Lock()
+		g.after = after
+		r.mu.Unlock()
+		return c.outcomeOf(c.lookup(after))
 	}
 	go func() {
 		r.res, r.err = guidedremediation.VerifC16ComputePatches(resolve.NPM, baseReqs(), c.Base, fn, c.Group)
@@ -220,9 +228,21 @@ func (r *prun) release(g *pgate) {
 			break
 		}
 	}
+	r.released = append(r.released, g)
 	r.events++
 	r.mu.Unlock()
 	close(g.ch)
+}
+
+// afterLists: what each released attempt saw in its argument slice once it was let go.
+func (r *prun) afterLists() [][]string {
+	r.mu.Lock()
+	defer r.mu.Unlock()
+	var out [][]string
+	for _, g := range r.released {
+		out = append(out, g.after)
+	}
+	return out
 }
 
 func (r *prun) abandon() {
@@ -275,6 +295,7 @@ func runComputeSchedule(c *pcfg, quiet time.Duration, choose func(depth int, ena
 		for {
 			select {
 			case <-r.done:
+				tr.After = r.afterLists()
 				return tr, projectPatches(r.res), true
 			default:
 			}
@@ -295,6 +316,7 @@ func runComputeSchedule(c *pcfg, quiet time.Duration, choose func(depth int, ena
 		r.settle(quiet)
 		select {
 		case <-r.done:
+			tr.After = r.afterLists()
 			return tr, projectPatches(r.res), true
 		default:
 		}
@@ -549,6 +571,34 @@ func tieCase(variant int) *pcfg {
 	return c
 }
 
+// deepCase: a chain of introduced vulnerabilities three deep whose 3-id attempt introduces several new ones
+// (non-grouped mode, as the relax strategy runs it): the follow-up attempts are siblings built from one
+// 3-element id slice.
+func deepCase(variant int) *pcfg {
+	c := &pcfg{Stream: "deep", Group: false, Base: []string{"V1", "V2"}}
+	sibs := []string{"N3", "N4"}
+	if variant == 2 {
+		sibs = []string{"N3", "N4", "N5"}
+	}
+	c.Table = []attempt{
+		{IDs: []string{"V1"}, Updates: []updSpec{{"alpha", "1.0.0"}}, Fixed: []string{"V1"}, Intro: []string{"N1"}},
+	}
+	if variant == 0 {
+		c.Table = append(c.Table, attempt{IDs: []string{"V2"}, Err: 1})
+	} else {
+		c.Table = append(c.Table, attempt{IDs: []string{"V2"}, Updates: []updSpec{{"beta", "1.0.0"}}, Fixed: []string{"V2"}})
+	}
+	c.Table = append(c.Table,
+		attempt{IDs: []string{"V1", "N1"}, Updates: []updSpec{{"alpha", "1.0.1"}}, Fixed: []string{"V1"}, Intro: []string{"N1", "N2"}},
+		attempt{IDs: []string{"V1", "N1", "N2"}, Updates: []updSpec{{"alpha", "1.1.0"}}, Fixed: []string{"V1"}, Intro: sibs})
+	tos := []string{"2.0.0", "10.0.0", "2.0.0"}
+	names := []string{"alpha", "alpha", "gamma"}
+	for i, n := range sibs {
+		c.Table = append(c.Table, attempt{IDs: []string{"V1", "N1", "N2", n}, Updates: []updSpec{{names[i], tos[i]}}, Fixed: []string{"V1"}})
+	}
+	return c
+}
+
 func genComputeCases(seed int64, tier string, quiet time.Duration) ([]*pcase, map[string]int) {
 	rnd := rand.New(rand.NewSource(seed))
 	stats := map[string]int{}
@@ -584,6 +634,12 @@ func genComputeCases(seed int64, tier string, quiet time.Duration) ([]*pcase, ma
 		pc := exploreCompute(tieCase(v), quiet, limit)
 		cases = append(cases, pc)
 		stats["schedules_tie"] += len(pc.Traces)
+	}
+	for v := 0; v < 3; v++ {
+		pc := exploreCompute(deepCase(v), quiet, limit)
+		cases = append(cases, pc)
+		stats["schedules_deep"] += len(pc.Traces)
+		stats[fmt.Sprintf("tasks_%d", len(pc.Cfg.Table))]++
 	}
 	return cases, stats
 }
@@ -667,7 +723,7 @@ func computeCoqCase(pc *pcase) string {
 		if t.Stuck {
 			fi = 9999
 		}
-		trs = append(trs, fmt.Sprintf("mkpt %s %d", coqTaskList(t.Order), fi))
+		trs = append(trs, fmt.Sprintf("mkpt %s %s %d", coqTaskList(t.Order), coqTaskList(t.After), fi))
 	}
 	for _, f := range pc.Finals {
 		var ps []string
